@@ -8,7 +8,7 @@ S="$(mktemp -d /dev/shm/j2m-mutant-XXXXXX)"
 trap 'rm -rf "$S"' EXIT
 mkdir -p "$S/repo" "$S/ev" "$S/rp"
 rsync -a --exclude .git --exclude __pycache__ /repo/ "$S/repo/"
-if ! (cd "$S/repo" && patch -p1 -s < "$PATCH"); then echo "PATCH-FAILED"; exit 3; fi
+if ! (cd "$S/repo" && (patch -p1 -s --dry-run < "$PATCH" >/dev/null 2>&1 && patch -p1 -s < "$PATCH" || patch -p1 -s -F3 < "$PATCH")); then echo "PATCH-FAILED"; exit 3; fi
 rc_all=0
 for id in "$@"; do
   VERIF_REPO="$S/repo" VERIF_EVIDENCE_DIR="$S/ev" VERIF_REPLAY_DIR="$S/rp" "$DIR/check" "$id" ${MUTANT_ARGS:-} 2>&1 | grep -E "VIOLATION|what:|KNOWN-FINDING|HARNESS|quick:|thorough:" | cut -c1-400
